@@ -33,6 +33,7 @@ except Exception:  # pragma: no cover
 XCHECK = int(os.environ.get("VERIF_XCHECK", "0") or 0)
 XCHECK_S = int(os.environ.get("VERIF_XCHECK_S", "5") or 5)
 _XN = 0
+QE_TIMEOUT_MS = int(os.environ.get("VERIF_QE_TIMEOUT_MS", "20000") or 20000)
 
 # --------------------------------------------------------------------------- errors
 _COMM = None
@@ -981,10 +982,17 @@ class SymPath(_PathBase):
         self.stats["forall_q"] += 1
         g = z3.Goal()
         g.add(z3.ForAll(xs, z3.Not(feas)))
+        # quantifier elimination has no time limit of its own: a non-linear instance (symbolic matrix coefficient
+        # times a bound variable) can run for hours.  Bounded; a timeout is inconclusive, never a verdict.
         try:
-            res = z3.Then("qe2", "simplify")(g).as_expr()
+            res = z3.TryFor(z3.Then("qe2", "simplify"), QE_TIMEOUT_MS)(g).as_expr()
         except z3.Z3Exception:
-            res = z3.Then("qe", "simplify")(g).as_expr()
+            try:
+                res = z3.TryFor(z3.Then("qe", "simplify"), QE_TIMEOUT_MS)(g).as_expr()
+            except z3.Z3Exception as e:
+                self.stats["solver_s"] += time.time() - t0
+                self.stats["unknown"] += 1
+                raise Inconclusive("quantifier elimination gave up: %s" % str(e)[:120])
         self.stats["solver_s"] += time.time() - t0
         return res
 
